@@ -4,7 +4,35 @@ G = "gosym_part"
 C06_ASSUME = ["type shapes limited to harness generator anyStructural (primitives, aliases of primitives, optional/union/vector/array/map/stream over them)",
               "evolution context empty (no named record/enum definitions) in the type-pair harness"]
 
+C18_ASSUME = ["readPackageInfo / fetchAndCachePackages replaced under gosym by an in-memory package store (verifRepl_ functions); "
+              "natively the same graph is materialised as _package.yml files and the unmodified loader runs",
+              "local directory imports only (no git/https fetching)"]
+
+
+def c18_key(aid, events, outs):
+    m = {e["name"]: e["value"] for e in events}
+    if aid == "too-deep-rejected" and m.get("shortcut") == "1" and m.get("shortcut-first") == "1":
+        return "c18:too-deep-chain-accepted-when-shortcut-import-listed-first"
+    return "c18:%s:%s" % (aid, ",".join("%s=%s" % (k, v) for k, v in sorted(m.items()) if k.startswith("shortcut")))
+
+
 PARTS = {
+    "C18": [
+        (G, "gosym_part", dict(name="c18_graph", entry="pkg/packaging.VerifC18Graph", args_quick=(3, 2), args_thorough=(3, 3),
+                               required_sites=("terminates-without-panic", "cycle-or-conflict-rejected", "acyclic-accepted", "each-reachable-once"),
+                               assumptions=C18_ASSUME,
+                               desc="LoadPackage on every import multigraph over n packages (args: n, max out-degree) with symbolic namespaces: "
+                                    "cycle or namespace conflict among reachable packages => error; otherwise success, each reachable package once, every import resolved")),
+        (G, "gosym_part", dict(name="c18_dag", entry="pkg/packaging.VerifC18Dag", args_quick=(4,), args_thorough=(5,),
+                               required_sites=("cycle-or-conflict-rejected", "acyclic-accepted", "shared-package-loaded-once"), assumptions=C18_ASSUME,
+                               desc="DAGs over n packages with both list orders, one optional arbitrary extra edge and a symbolic namespace on the last package")),
+        (G, "gosym_part", dict(name="c18_depth", entry="pkg/packaging.VerifC18Depth", args_quick=(12,), args_thorough=(13,),
+                               required_sites=("too-deep-rejected",), assumptions=C18_ASSUME, key_fn=c18_key,
+                               desc="chain of k packages (real MaxImportRecursionDepth) with an optional shortcut import to a symbolic position listed first or last")),
+        (G, "gosym_part", dict(name="c18_depth_ok", entry="pkg/packaging.VerifC18Depth", args_quick=(10,), args_thorough=(9,),
+                               required_sites=("within-limit-accepted",), assumptions=C18_ASSUME, key_fn=c18_key,
+                               desc="chains within the limit are accepted")),
+    ],
     "C12": [
         (G, "gosym_part", dict(name="c12_error_order", entry="internal/zzverif.C12ErrorOrder", args_quick=(2,), args_thorough=(3,),
                                required_sites=("errors-order-independent",),
@@ -47,6 +75,11 @@ NOTES = ("Every claim is bounded: 'holds' means unsat within the stated bound. E
 NOT_APPLICABLE = {}
 
 CLAIMS = {
+    "C18": dict(text="Bounded symbolic execution (gosym) of LoadPackage/collectPackages/GetAllReferencedPackages over all import multigraphs on 3 packages "
+                     "(out-degree <= 2, symbolic namespaces), all DAGs (+1 arbitrary edge) on 4 packages in both list orders, and chains at the real depth limit "
+                     "with a shortcut import: cycles, namespace conflicts and over-deep chains are errors; otherwise every reachable package is loaded once and every import resolved.",
+                note="The two I/O seams (readPackageInfo, fetchAndCachePackages) are replaced by an in-memory package store under gosym; each explored path is "
+                     "replayed natively on real _package.yml files with the unmodified loader. git/https imports and the cache are out of scope. One genuine defect is recorded in known_findings.json."),
     "C12": dict(text="Bounded symbolic execution (gosym) of the diagnostic sinks' real comparators and of WriteFileIfNeeded: rendered diagnostics are "
                      "independent of recording order for all symbolic records (2 quick / 3 thorough), and regenerating identical content performs no write.",
                 note="Covers the diagnostic-order and idempotent-write mechanisms only; map-iteration-order independence of generators is not yet covered. "
